@@ -26,6 +26,7 @@ import (
 	"runtime"
 	"strconv"
 	"sync"
+	"sync/atomic"
 	"time"
 
 	"github.com/gauss-project/aurorafs/pkg/bmt"
@@ -101,7 +102,14 @@ type handle struct {
 	data []byte // bytes supplied since Get / Reset
 }
 
-const hashTimeout = 30 * time.Second
+const hashTimeout = 12 * time.Second
+
+// hangs counts Hash calls that never answered.  Each costs hashTimeout; once there are maxHangs of them
+// the remaining scenarios are not started (the recording simply holds fewer scenarios), so that a tree
+// that hangs everywhere is reported as such instead of running into the orchestrator's time limit.
+var hangs int32
+
+const maxHangs = 24
 
 // run executes one scenario and returns its events (the first one is the reset event's fields).
 func run(sc kit.Scenario) (begin kit.Ev, evs []kit.Ev, err error) {
@@ -181,10 +189,15 @@ func run(sc kit.Scenario) (begin kit.Ev, evs []kit.Ev, err error) {
 			case r := <-done:
 				e["returned"], e["err"], e["digest"], e["dlen"] = true, errs(r.err), hex.EncodeToString(r.d), len(r.d)
 			case <-time.After(hashTimeout):
-				// the hasher never answered; its goroutines and tree are lost, the scenario ends here
+				// the hasher never answered; its goroutines and its tree are lost and the scenario ends
+				// here.  A shared pool gets a fresh tree in exchange, so that the other users go on.
 				e["returned"], e["err"], e["digest"], e["dlen"] = false, "", "", 0
+				atomic.AddInt32(&hangs, 1)
 				evs = append(evs, e)
 				begin["cap"] = capSeen
+				if tree != "small" {
+					pool.Put(bmt.NewPool(bmt.NewConf(sha3.NewLegacyKeccak256, segs, 1)).Get())
+				}
 				return begin, evs, nil
 			}
 		case "hreset":
@@ -247,6 +260,9 @@ func main() {
 			go func() {
 				defer wg.Done()
 				for i := range next {
+					if atomic.LoadInt32(&hangs) >= maxHangs {
+						continue
+					}
 					b, e, err := run(scs[i])
 					results[i] = result{b, e, err}
 				}
@@ -273,6 +289,9 @@ func main() {
 				go func() {
 					defer fwg.Done()
 					for i := range fnext {
+						if atomic.LoadInt32(&hangs) >= maxHangs {
+							continue
+						}
 						b, e, err := runForced(scs[i])
 						results[i] = result{b, e, err}
 					}
@@ -288,6 +307,9 @@ func main() {
 		for i, r := range results {
 			if r.err != nil {
 				return r.err
+			}
+			if r.begin == nil {
+				continue // not started (too many hangs before)
 			}
 			out.Begin(scs[i].Scn, r.begin)
 			for _, e := range r.evs {
